@@ -2334,13 +2334,18 @@ func (r *RIBHolder) GetRIB(filter map[spb.AFTType]bool, msgCh chan *spb.GetRespo
 				if err != nil {
 					return status.Errorf(codes.Internal, "cannot marshal IPv4Entry for %s into GetResponse, %v", pfx, err)
 				}
-				msgCh <- &spb.GetResponse{
+				select {
+				case msgCh <- &spb.GetResponse{
 					Entry: []*spb.AFTEntry{{
 						NetworkInstance: r.name,
 						Entry: &spb.AFTEntry_Ipv4{
 							Ipv4: p,
 						},
 					}},
+				}:
+				case <-stopCh:
+					// the reader has gone away
+					return nil
 				}
 			}
 		}
@@ -2356,13 +2361,18 @@ func (r *RIBHolder) GetRIB(filter map[spb.AFTType]bool, msgCh chan *spb.GetRespo
 				if err != nil {
 					return status.Errorf(codes.Internal, "cannot marshal IPv6Entry for %s into GetResponse, %v", pfx, err)
 				}
-				msgCh <- &spb.GetResponse{
+				select {
+				case msgCh <- &spb.GetResponse{
 					Entry: []*spb.AFTEntry{{
 						NetworkInstance: r.name,
 						Entry: &spb.AFTEntry_Ipv6{
 							Ipv6: p,
 						},
 					}},
+				}:
+				case <-stopCh:
+					// the reader has gone away
+					return nil
 				}
 			}
 		}
@@ -2378,13 +2388,18 @@ func (r *RIBHolder) GetRIB(filter map[spb.AFTType]bool, msgCh chan *spb.GetRespo
 				if err != nil {
 					return status.Errorf(codes.Internal, "cannot marshal MPLS entry for label %d into GetResponse, %v", lbl, err)
 				}
-				msgCh <- &spb.GetResponse{
+				select {
+				case msgCh <- &spb.GetResponse{
 					Entry: []*spb.AFTEntry{{
 						NetworkInstance: r.name,
 						Entry: &spb.AFTEntry_Mpls{
 							Mpls: p,
 						},
 					}},
+				}:
+				case <-stopCh:
+					// the reader has gone away
+					return nil
 				}
 			}
 		}
@@ -2400,13 +2415,18 @@ func (r *RIBHolder) GetRIB(filter map[spb.AFTType]bool, msgCh chan *spb.GetRespo
 				if err != nil {
 					return status.Errorf(codes.Internal, "cannot marshal NextHopGroupEntry for index %d into GetResponse, %v", index, err)
 				}
-				msgCh <- &spb.GetResponse{
+				select {
+				case msgCh <- &spb.GetResponse{
 					Entry: []*spb.AFTEntry{{
 						NetworkInstance: r.name,
 						Entry: &spb.AFTEntry_NextHopGroup{
 							NextHopGroup: p,
 						},
 					}},
+				}:
+				case <-stopCh:
+					// the reader has gone away
+					return nil
 				}
 			}
 		}
@@ -2422,13 +2442,18 @@ func (r *RIBHolder) GetRIB(filter map[spb.AFTType]bool, msgCh chan *spb.GetRespo
 				if err != nil {
 					return status.Errorf(codes.Internal, "cannot marshal NextHopEntry for ID %d into GetResponse, %v", id, err)
 				}
-				msgCh <- &spb.GetResponse{
+				select {
+				case msgCh <- &spb.GetResponse{
 					Entry: []*spb.AFTEntry{{
 						NetworkInstance: r.name,
 						Entry: &spb.AFTEntry_NextHop{
 							NextHop: p,
 						},
 					}},
+				}:
+				case <-stopCh:
+					// the reader has gone away
+					return nil
 				}
 			}
 		}
